@@ -72,6 +72,14 @@ def enumeration():
                             for which in (["bak", "out"] if backup == "ok" else ["out"]):
                                 for kind in ("open", "write", "close"):
                                     out.append(dict(b, ops=BASE_OPS, fault=[kind, which], before=pre))
+                # files with Windows line endings, and with both kinds: saved like any other, on either file system
+                for output in (False, True):
+                    for backup in (None, "ok"):
+                        b = base_case(fmt, "utf-8", fs, output, backup)
+                        t0 = bytes.fromhex(b["data"]).decode("utf-8")
+                        for t1 in (t0.replace("\n", "\r\n"), t0.replace("\n", "\r\n", 2)):
+                            out.append(dict(b, data=t1.encode("utf-8").hex(), ops=BASE_OPS))
+                            out.append(dict(b, data=t1.encode("utf-8").hex(), ops=[]))
                 if fmt == "ssc":
                     for output in (False, True):
                         for backup in (None, "ok"):
